@@ -231,9 +231,13 @@ def wired_together(ctx, proto):
     """Objects pickled together stay wired together: after loading (total, dependency) a registration on the loaded
     dependency is seen by the loaded consumer (and not by the originals)."""
     for consumer in (M.ds_total, M.ds_total_sig):
-        total2, dep2 = pickle.loads(pickle.dumps((consumer, M.ds_dep), protocol=proto))
         alias = f"only-on-the-copy-{proto}-{consumer.__name__}"  # (never evaluated before: stored values travel in the pickle)
-        dep2.register(alias, Value(("copy-only",)))
+        try:
+            total2, dep2 = pickle.loads(pickle.dumps((consumer, M.ds_dep), protocol=proto))
+            dep2.register(alias, Value(("copy-only",)))
+        except Exception as e:  # noqa: BLE001
+            ctx.violation("copy-not-usable", f"protocol {proto}: loading (consumer, dependency) / registering on the loaded dependency raised {type(e).__name__}: {e}", {"graph": "wired", "protocol": proto})
+            return
         got = observe(total2.evaluate, {"D": alias, "C": 1})
         orig = observe(consumer.evaluate, {"D": alias, "C": 1})
         ctx.evaluations += 2
